@@ -99,8 +99,12 @@ pub fn prepare(case: &TokCase) -> Prep {
 }
 
 pub fn gen_tokcase(rng: &mut Rng, cfg: &GenCfg, nsent: usize, variety: bool) -> TokCase {
-    let spec = gen_dict(rng, cfg);
-    let user = if rng.chance(0.4) { Some(gen_user(rng, &spec, cfg)) } else { None };
+    let mut spec = gen_dict(rng, cfg);
+    let mut user = if rng.chance(0.4) { Some(gen_user(rng, &spec, cfg)) } else { None };
+    if variety && rng.chance(0.02) {
+        // an id space of realistic size (more than 4096 right ids)
+        widen_right_ids(rng, &mut spec, user.as_mut());
+    }
     let (nr, nl) = spec.conn.dims();
     let mapping = if variety && rng.chance(0.3) { Some((gen_perm_ids(rng, nl), gen_perm_ids(rng, nr))) } else { None };
     let user_before_map = rng.chance(0.5);
@@ -179,7 +183,71 @@ pub fn c01_case(ctx: &mut Ctx, rng: &mut Rng) {
         case.sentences.extend(extra);
         ctx.bucket("stress_sentences");
     }
+    if rng.chance(0.06) {
+        c01_id_at_dimension(ctx, rng, &case);
+        return;
+    }
     c01_run(ctx, &case);
+}
+
+/// One row gets a connection id equal to the dimension of the connector (one past the largest id). Whether the
+/// builder accepts that is C10's business; here: if it does, tokenization must still not panic (and the
+/// sanitizer flavours watch the table accesses).
+fn c01_id_at_dimension(ctx: &mut Ctx, rng: &mut Rng, case: &TokCase) {
+    let mut c = case.clone();
+    c.mapping = None;
+    let (nr, nl) = c.spec.conn.dims();
+    let left = rng.chance(0.5);
+    let bump = rng.below(2);
+    let set = |l: &mut u16, r: &mut u16| {
+        if left {
+            *l = (nl + bump) as u16;
+        } else {
+            *r = (nr + bump) as u16;
+        }
+    };
+    let which = match rng.below(3) {
+        0 => {
+            let i = rng.below(c.spec.lex.len());
+            let row = &mut c.spec.lex[i];
+            set(&mut row.l, &mut row.r);
+            "lex.csv"
+        }
+        1 if !c.spec.unk.is_empty() => {
+            let i = rng.below(c.spec.unk.len());
+            let row = &mut c.spec.unk[i];
+            set(&mut row.l, &mut row.r);
+            "unk.def"
+        }
+        _ => match c.user.as_mut() {
+            Some(u) if !u.is_empty() => {
+                let i = rng.below(u.len());
+                let row = &mut u[i];
+                set(&mut row.l, &mut row.r);
+                "user.csv"
+            }
+            _ => return,
+        },
+    };
+    let what = format!("{which}: a {} id set to {}, the connector has {nr} right and {nl} left ids", if left { "left" } else { "right" }, if left { nl + bump } else { nr + bump });
+    let dict = match prepare(&c) {
+        Prep::Ready { dict, .. } => dict,
+        Prep::Panicked(_) | Prep::Rejected(_) => {
+            // (what the builder does with it is judged by C10)
+            ctx.bucket("id_equal_to_dimension_rejected_by_builder");
+            return;
+        }
+    };
+    ctx.bucket("id_equal_to_dimension_accepted_by_builder");
+    let tok = Tokenizer::new(dict);
+    let mut w = tok.new_worker();
+    for s in &c.sentences {
+        ctx.eval();
+        if let Err(p) = tokenize(&mut w, s) {
+            ctx.violation("tokenize_panicked", &format!("C01:tokenize:{}:id-at-dimension-accepted", panic_class(&p)), format!("{what}: {p}"), c.brief(s, c.opts[0]));
+            return;
+        }
+    }
 }
 
 pub fn c01_run(ctx: &mut Ctx, case: &TokCase) {
@@ -193,7 +261,7 @@ pub fn c01_run(ctx: &mut Ctx, case: &TokCase) {
     let refd = RefDict::new(&spec, user.as_deref());
     let mut dict = Some(dict);
     for &o in &case.opts {
-        let tok = match make_tokenizer(dict.take().unwrap(), o) {
+        let tok = match make_tokenizer_hist(dict.take().unwrap(), o, spec.cat_index("SPACE").is_some()) {
             Ok(t) => t,
             Err(e) => {
                 ctx.violation("ignore_space_rejected_with_SPACE_defined", "C01:make_tokenizer", e, case.brief("", o));
@@ -406,6 +474,40 @@ pub fn is_clean_space(spec: &DictSpec, user: Option<&[LexRow]>) -> bool {
     }
     let has_sp = |rows: &[LexRow]| rows.iter().any(|r| r.surface.contains(' ') || r.surface.contains('\u{3000}'));
     !has_sp(&spec.lex) && !user.map_or(false, has_sp)
+}
+
+/// The C12 precondition in its general form: the set of characters that belong to SPACE (and to SPACE alone),
+/// when ' ' and U+3000 are among them, no character belongs to SPACE together with another category, astral
+/// characters (which share the entry of U+0000) are not in SPACE, and no lexicon surface contains one of them.
+pub fn clean_space_set(spec: &DictSpec, user: Option<&[LexRow]>) -> Option<Vec<char>> {
+    let sc = spec.cat_index("SPACE")?;
+    let mut set: Vec<char> = vec![];
+    for r in &spec.ranges {
+        if !r.cats.contains(&sc) {
+            continue;
+        }
+        for x in r.lo..=r.hi {
+            if let Some(c) = char::from_u32(x) {
+                let (cs, _) = spec.cinfo(c);
+                if cs.contains(&sc) {
+                    if cs != vec![sc] || x == 0 {
+                        return None;
+                    }
+                    if !set.contains(&c) {
+                        set.push(c);
+                    }
+                }
+            }
+        }
+    }
+    if !set.contains(&' ') || !set.contains(&'\u{3000}') {
+        return None;
+    }
+    let has_sp = |rows: &[LexRow]| rows.iter().any(|r| r.surface.chars().any(|c| set.contains(&c)));
+    if has_sp(&spec.lex) || user.map_or(false, has_sp) {
+        return None;
+    }
+    Some(set)
 }
 
 /// Known finding C02: >= 65536 nodes ending at one boundary (16-bit back pointer).
